@@ -5,6 +5,16 @@ from concurrent.futures import ThreadPoolExecutor
 from .build import ENV
 
 
+def _limits():
+    # a runaway allocation (e.g. a builder that never advances) must end as a crash of that one
+    # process, not take the machine down: 6 GiB of address space per worker
+    import resource
+    try:
+        resource.setrlimit(resource.RLIMIT_AS, (6 << 30, 6 << 30))
+    except Exception:
+        pass
+
+
 def _signame(rc):
     try:
         return signal.Signals(-rc).name
@@ -27,7 +37,7 @@ def run_stream(cmd, lines, op_timeout, cwd=None):
                 break
         feed = ctx + lines[pos:]
         skip = len(ctx)
-        proc = subprocess.Popen(cmd, stdin=subprocess.PIPE, stdout=subprocess.PIPE, stderr=subprocess.PIPE, env=ENV, cwd=cwd)
+        proc = subprocess.Popen(cmd, stdin=subprocess.PIPE, stdout=subprocess.PIPE, stderr=subprocess.PIPE, env=ENV, cwd=cwd, preexec_fn=_limits)
         def writer():
             try:
                 proc.stdin.write(("\n".join(feed) + "\n").encode())
